@@ -2,8 +2,8 @@
    association-list specification it is proved to refine (RBProofs*.v, Properties_C03.v).
    MODEL ONLY (no proofs here).
 
-   Representation.  A node is `T colour left key val right` (T for tree node; N is taken by the binary naturals); NULL is `E`.  Parent pointers
-   are not represented: every place where the C code walks a parent link is modelled with a
+   Representation.  A node is `T colour left key val right` (T for tree node; `N` is taken by
+   the binary naturals); NULL is `E`.  Parent pointers are not represented: every place where the C code walks a parent link is modelled with a
    zipper (`path` = list of frames, innermost first).  The colour bit that the C code keeps
    in the low bit of the parent pointer is the `colour` field.
 
